@@ -643,7 +643,7 @@ def _check_constants(ctx, rep):
     f = ix.func(OBJ + "gate.convert_var_to_hs")
     ins = [n for n in own_nodes(f.node) if isinstance(n, ast.Call) and (dotted(n.func) or "").endswith("insert")]
     if len(ins) == 1 and len(ins[0].args) >= 3:
-        pos, val = ins[0].args[1], ins[0].args[2]
+        pos, val = inline(f, ins[0].args[1]), inline(f, ins[0].args[2])
         ax = kwarg(ins[0], "axis")
         is_e0 = isinstance(val, ast.Call) and (dotted(val.func) or "").endswith("eye") and len(val.args) == 2 and is_num(val.args[0], 1)
         if not (is_num(pos, 0) and ax is not None and is_num(ax, 0)):
@@ -710,9 +710,12 @@ def _check_constants(ctx, rep):
             continue
         want_pos = (Poly.sym("d") ** 4) * (Poly.sym("m") - 1)
         val = inline(f, node.args[2])
-        one = _store_consts(f, "one")
+        # e0 - S: e0 is a zeros vector with the single store [0] = 1, S is the accumulator of the loop (whatever they are called)
+        e0_name = unparse(val.left) if isinstance(val, ast.BinOp) and isinstance(val.op, ast.Sub) and isinstance(val.left, ast.Name) else "one"
+        acc_name = unparse(val.right) if isinstance(val, ast.BinOp) and isinstance(val.op, ast.Sub) and isinstance(val.right, ast.Name) else None
+        one = _store_consts(f, e0_name)
         e0_ok = len(one) == 1 and one[0][0] == ("0",) and is_num(one[0][1], 1)
-        form_ok = isinstance(val, ast.BinOp) and isinstance(val.op, ast.Sub) and unparse(val.right) == "sum_first_row"
+        form_ok = acc_name is not None and any(isinstance(x, ast.AugAssign) and unparse(x.target) == acc_name for x in own_nodes(f.node))
         if pos != want_pos:
             rep.violation("I5", f, node, "implied row inserted at %r; the removed block starts at %r" % (pos, want_pos), node=node)
         elif not (e0_ok and form_ok):
@@ -724,7 +727,7 @@ def _check_constants(ctx, rep):
             ok = False
             for lp in loops:
                 for s in lp.body:
-                    if isinstance(s, ast.AugAssign) and isinstance(s.op, ast.Add) and unparse(s.target) == "sum_first_row" \
+                    if isinstance(s, ast.AugAssign) and isinstance(s.op, ast.Add) and unparse(s.target) == acc_name \
                             and isinstance(s.value, ast.Subscript) and isinstance(s.value.slice, ast.Slice):
                         lo, hi = s.value.slice.lower, s.value.slice.upper
                         lv = lp.target.id if isinstance(lp.target, ast.Name) else None
@@ -768,9 +771,14 @@ def _check_constants(ctx, rep):
         rep.undecided("I5", f, "np.delete", "expected one np.delete(hs, 0, axis=0)")
     f = ix.func(OBJ + "mprocess.MProcess.convert_stacked_vector_to_var")
     dels = [n for n in own_nodes(f.node) if isinstance(n, ast.Call) and (dotted(n.func) or "").endswith("delete")]
-    if len(dels) == 1 and len(dels[0].args) == 2 and isinstance(dels[0].args[1], ast.Subscript) and unparse(dels[0].args[1].value) == "np.s_" \
-            and isinstance(dels[0].args[1].slice, ast.Slice):
-        sl = dels[0].args[1].slice
+    sl = None
+    if len(dels) == 1 and len(dels[0].args) == 2:
+        a1 = inline(f, dels[0].args[1], defs={k: v for k, v in single_defs(f).items() if k != "num_outcomes"})
+        if isinstance(a1, ast.Subscript) and unparse(a1.value) == "np.s_" and isinstance(a1.slice, ast.Slice):
+            sl = a1.slice
+        elif isinstance(a1, ast.Call) and dotted(a1.func) == "slice" and len(a1.args) == 2:
+            sl = ast.Slice(lower=a1.args[0], upper=a1.args[1], step=None)
+    if sl is not None:
         try:
             defs = {k: v for k, v in single_defs(f).items() if k != "num_outcomes"}
             lo, hi = _size_poly(sl.lower, f, defs), _size_poly(sl.upper, f, defs)
@@ -804,6 +812,8 @@ def _size_poly_with(e, f, defs, loopvar):
 def _size_poly_loop(e, f, defs, loopvar):
     if isinstance(e, ast.Name) and e.id == loopvar:
         return Poly.sym("@i")
+    if isinstance(e, ast.Name) and defs and e.id in defs and any(isinstance(x, ast.Name) and (x.id == loopvar or x.id in defs) for x in ast.walk(defs[e.id])):
+        return _size_poly_loop(defs[e.id], f, {k: v for k, v in defs.items() if k != e.id}, loopvar)
     if isinstance(e, ast.BinOp):
         l, r = _size_poly_loop(e.left, f, defs, loopvar), _size_poly_loop(e.right, f, defs, loopvar)
         if isinstance(e.op, ast.Add):
